@@ -78,7 +78,7 @@ func sentinelExits(fn *ssa.Function, errV ssa.Value, sentinel string) (bad []ssa
 			continue
 		}
 		for _, in := range b.Instrs {
-			ret, ok := in.(*ssa.Return)
+			ret, ok := an.AsReturn(in)
 			if !ok || len(ret.Results) == 0 {
 				continue
 			}
@@ -216,7 +216,7 @@ func c08(c *Ctx) {
 		kt.KeepConv = true
 		for _, b := range f.Blocks {
 			for _, in := range b.Instrs {
-				ret, ok := in.(*ssa.Return)
+				ret, ok := an.AsReturn(in)
 				if !ok || len(ret.Results) != 2 {
 					continue
 				}
@@ -329,6 +329,51 @@ func c08(c *Ctx) {
 		r.Check(len(bad) == 0, "R08.A", key, c.pos(body.Pos()), "9 lengths from 0 to 2^20 evaluated: "+strings.Join(bad, "; "))
 	}
 
+	// ---- R08.E (addition): end of stream is what the connection reported, never something a layer concludes --------
+	// every exit that returns the sentinel io.EOF itself (not the error value it received) must lie behind the
+	// equal edge of a comparison of a received error with io.EOF; "n == 0, so it must be the end" turns an empty
+	// message into end-of-stream
+	for _, t := range []struct{ pkg, recv, name string }{
+		{load.TransPkg, "*tcpConn", "Read"}, {load.ModePkg, "*abridged", "ReadMsg"}, {load.ModePkg, "*intermediate", "ReadMsg"},
+		{load.TransPkg, "*transport", "ReadMsg"}, {load.RootMod, "*MTProto", "readMsg"},
+	} {
+		f := c.P.Func(t.pkg, t.recv, t.name)
+		if f == nil {
+			continue
+		}
+		isEOF := func(v ssa.Value) bool {
+			ld, ok := v.(*ssa.UnOp)
+			if !ok {
+				return false
+			}
+			g, ok := ld.X.(*ssa.Global)
+			return ok && g.Name() == "EOF" && g.Pkg != nil && g.Pkg.Pkg.Path() == "io"
+		}
+		var bad []string
+		n := 0
+		for _, b := range f.Blocks {
+			ret, ok := an.AsReturn(b.Instrs[len(b.Instrs)-1])
+			if !ok || len(ret.Results) == 0 {
+				continue
+			}
+			ev := an.RetVal(ret, len(ret.Results)-1)
+			if !isEOF(ev) {
+				continue
+			}
+			n++
+			guarded := an.DominatingGuard(f, ret, func(cd *an.Cond) int {
+				if cd.Kind == "eq" && (isEOF(cd.X) || isEOF(cd.Y)) {
+					return cd.EdgeWhen(true).Succ
+				}
+				return -1
+			})
+			if !guarded {
+				bad = append(bad, "the exit at "+c.pos(ret.Pos())+" returns io.EOF without having received it")
+			}
+		}
+		r.Check(len(bad) == 0, "R08.E", "eof-only-when-received:"+an.ShortName(f), c.pos(f.Pos()), sprintf("%d exit(s) return the io.EOF sentinel itself; %s", n, strings.Join(bad, "; ")))
+	}
+
 	// ---- R08.O: "the same sequence of byte strings" - each delivered message keeps its bytes ------------------------
 	r.Rule("R08.O", "every message a mode reader returns lives in a buffer made by that call: a reader that hands out a window of a buffer it keeps (and refills on the next call) changes the messages it delivered earlier", 2)
 	for _, m := range []string{"*abridged", "*intermediate"} {
@@ -339,7 +384,7 @@ func c08(c *Ctx) {
 		var bad []string
 		n := 0
 		for _, b := range rd.Blocks {
-			ret, ok := b.Instrs[len(b.Instrs)-1].(*ssa.Return)
+			ret, ok := an.AsReturn(b.Instrs[len(b.Instrs)-1])
 			if !ok || len(ret.Results) != 2 {
 				continue
 			}
@@ -667,7 +712,7 @@ func c08Framing(c *Ctx, tr *an.Tracer) {
 				ok := false
 				for _, b := range f.Blocks {
 					for _, in := range b.Instrs {
-						if ret, ok2 := in.(*ssa.Return); ok2 && len(ret.Results) == 1 && strings.HasPrefix(tr.OriginString(an.RetVal(ret, 0)), "global:"+m.glob) {
+						if ret, ok2 := an.AsReturn(in); ok2 && len(ret.Results) == 1 && strings.HasPrefix(tr.OriginString(an.RetVal(ret, 0)), "global:"+m.glob) {
 							ok = true
 						}
 					}
